@@ -166,3 +166,15 @@ claim('C13', 'exploration',
       'Same equivalence relation as C02.',
       'runtime monitoring: outcome classification plus round-trip differential for CIF 1.1 output',
       'DESIGN.md section 4, C13')
+
+claim('C09', 'exploration',
+      'cif_normalize is compared with NFC(fold(NFD(x))) computed through independent ICU entry points (unorm2_normalize '
+      'singletons, ucasemap_utf8FoldCase) for every Unicode scalar value (exhaustive, 1 112 063 one-character strings), '
+      '100 000 (thorough 2 000 000) base+mark / mark+mark / special-folding strings in NFC, NFD and as given '
+      '(idempotence, equal results for canonically equivalent spellings, srclen prefixes); 10 000 (thorough 200 000) '
+      'create / lookup / duplicate triples on blocks, frames, items and packet items under spelling pairs whose '
+      'equivalence the oracle decides; table keys (NFC only, case kept, last spelling enumerated); and a validity sweep '
+      'of every disallowed code-point class at first / middle / last position plus the 2048 / 2043 length boundaries.',
+      'ICU is trusted (Unicode 15, one library reached through two different APIs).  C1 controls in names are not judged.',
+      'runtime monitoring: exhaustive differential against independent ICU entry points plus API-level matching relation',
+      'DESIGN.md section 4, C09')
